@@ -492,7 +492,7 @@ func (e *Engine) replay(o *Oblig, all []*FuncResult, dir string, cfg solveCfg) r
 			fr = f
 		}
 	}
-	if fr == nil || o.Status != "refuted" {
+	if fr == nil || (o.Status != "refuted" && o.Kind != "noalloc") {
 		return finish("no model available (verdict " + o.Status + ")")
 	}
 	fn := e.funcs[fr.Fn]
@@ -512,10 +512,30 @@ func (e *Engine) replay(o *Oblig, all []*FuncResult, dir string, cfg solveCfg) r
 		spos = len(fr.Script)
 	}
 	// (model-search prelude: definitions instead of trigger axioms, so the solver can answer "sat")
-	s.send(scriptHeader + e.modelPreludeFor(fr.Script+o.Guard+o.Goal) + fr.Script[:spos])
+	session := scriptHeader + e.modelPreludeFor(fr.Script+o.Guard+o.Goal) + fr.Script[:spos]
+	if o.Kind == "noalloc" {
+		// the input only has to reach a return under the clause's condition - the real run is the
+		// judge - so the quantified assertions (range / frame axioms), which make the solver answer
+		// "unknown", are left out when searching for it
+		var kept []string
+		for _, l := range strings.Split(session, "\n") {
+			if strings.HasPrefix(l, "(assert ") && (strings.Contains(l, "(forall ") || strings.Contains(l, "(exists ")) {
+				continue
+			}
+			kept = append(kept, l)
+		}
+		session = strings.Join(kept, "\n")
+	}
+	s.send(session)
 	s.send("(push 1)")
 	popLevels := 1
-	s.send(fmt.Sprintf("(assert %s)\n(assert (not %s))", o.Guard, o.Goal))
+	if o.Kind == "noalloc" && o.GoalFree != "" {
+		// any input on which the function returns under the clause's condition will do: the
+		// allocation is measured on the real code, not predicted by the model
+		s.send(fmt.Sprintf("(assert %s)\n(assert %s)", o.Guard, o.GoalFree))
+	} else {
+		s.send(fmt.Sprintf("(assert %s)\n(assert (not %s))", o.Guard, o.Goal))
+	}
 	// prefer small inputs
 	var small []string
 	var collect func(v SVal)
@@ -533,6 +553,14 @@ func (e *Engine) replay(o *Oblig, all []*FuncResult, dir string, cfg solveCfg) r
 		collect(p)
 	}
 	s.send("(push 1)")
+	if o.Kind == "noalloc" {
+		// prefer an input on which something non-empty is returned (copying nothing allocates nothing)
+		for _, r := range fr.ResultVals {
+			if r.K == KSlice || r.K == KString {
+				small = append(small, lt("2", r.ln()))
+			}
+		}
+	}
 	for _, c := range small {
 		s.send("(assert " + c + ")")
 	}
@@ -615,6 +643,7 @@ func (e *Engine) replay(o *Oblig, all []*FuncResult, dir string, cfg solveCfg) r
 	} else {
 		call = fmt.Sprintf("%s(%s)", fr.FnName, strings.Join(argNames, ", "))
 	}
+	bareCall := call
 	if nres > 0 {
 		call = strings.Join(lhs, ", ") + " := " + call
 	}
@@ -632,6 +661,10 @@ func (e *Engine) replay(o *Oblig, all []*FuncResult, dir string, cfg solveCfg) r
 	fmt.Fprintf(&src, "\t%s\n", call)
 	for i := 0; i < nres; i++ {
 		fmt.Fprintf(&src, "\tverifShow(%d, r%d)\n", i, i)
+	}
+	if o.Kind == "noalloc" {
+		// allocation effect: measure the real function with the runtime's allocation counter
+		fmt.Fprintf(&src, "\tfmt.Printf(\"VERIF-REPLAY-ALLOCS %%v\\n\", testing.AllocsPerRun(50, func() { %s }))\n", bareCall)
 	}
 	fmt.Fprintf(&src, "\tfmt.Println(\"VERIF-REPLAY-DONE\")\n}\n")
 	testFile := filepath.Join(dir, sanitize(o.Name)+"_replay_test.go")
@@ -662,6 +695,37 @@ func (e *Engine) replay(o *Oblig, all []*FuncResult, dir string, cfg solveCfg) r
 			return finish("CONFIRMED: the real function panics on the model input")
 		}
 		return finish("the real function did not panic on the model input")
+	case "noalloc":
+		if panicked || !strings.Contains(outs, "VERIF-REPLAY-DONE") {
+			return finish("replay test did not run to completion")
+		}
+		var allocs float64
+		for _, l := range strings.Split(outs, "\n") {
+			if strings.HasPrefix(l, "VERIF-REPLAY-ALLOCS ") {
+				fmt.Sscanf(strings.TrimPrefix(l, "VERIF-REPLAY-ALLOCS "), "%g", &allocs)
+			}
+		}
+		// the clause's condition must hold on the real run: only the plain condition "no error
+		// returned" can be observed from outside
+		if !strings.HasSuffix(o.Desc, "when noerr") {
+			return finish(fmt.Sprintf("measured %.1f allocations per call, but the clause's condition (%s) is not observable from the outputs", allocs, o.Desc))
+		}
+		if nres > 0 && types.TypeString(fn.Signature.Results().At(nres-1).Type(), nil) == "error" {
+			last := ""
+			for _, l := range strings.Split(outs, "\n") {
+				if strings.HasPrefix(l, fmt.Sprintf("VERIF-REPLAY-RESULT %d ", nres-1)) {
+					last = strings.TrimPrefix(l, fmt.Sprintf("VERIF-REPLAY-RESULT %d ", nres-1))
+				}
+			}
+			if !strings.HasPrefix(last, "nil") {
+				return finish(fmt.Sprintf("the real function returned an error on the model input (%.1f allocations per call are allowed then)", allocs))
+			}
+		}
+		if allocs > 0 {
+			res.Confirmed = true
+			return finish(fmt.Sprintf("CONFIRMED: testing.AllocsPerRun measures %.1f heap allocations per call of the real function on the model input, which returns without error", allocs))
+		}
+		return finish("testing.AllocsPerRun measures 0 allocations on the model input")
 	case "ensures", "overflow":
 		if panicked {
 			res.Confirmed = true
